@@ -647,3 +647,346 @@ theorem sweeps_resolves (g : G) {k : Nat} (h : Settled g k) : Resolved (sweeps g
   · exact Or.inr (Or.inr ((mc.cancelled k).mpr (Or.inl h)))
 
 end MaestroVerif.Exec
+
+namespace MaestroVerif.Exec
+open MaestroVerif.Gen
+
+/-! ### launching makes progress -/
+
+/-- whatever happens to a launched step, it is tracked or resolved afterwards -/
+theorem executeRecord_outcome {cfg : Cfg} (wf : WFCfg cfg) (g : G) (i : Nat) (restart : Bool) :
+    i ∈ (executeRecord cfg g i restart).inProgress ∨ Resolved (executeRecord cfg g i restart) i := by
+  obtain ⟨ec, ei, ef, ecn, er, ecl, ecq, es, eic, ers⟩ := execPrep_fields cfg g i restart
+  unfold executeRecord
+  simp only
+  split
+  · right; left; simp [dryMark, setStatus]
+  · generalize submitLoop cfg i restart cfg.attempts (execPrep cfg g i restart) = r
+    unfold execFinish
+    split
+    · split
+      · left; simp
+      · right; left; simp [setStatus]
+    · right; right; left
+      rw [failSubtree_eq]
+      exact ((markFailed_spec (subtree cfg i) _).failed i).mpr (Or.inl (self_mem_subtree wf i))
+
+theorem launch_keeps_inProgress (cfg : Cfg) {i : Nat} : ∀ (k : Nat) (g : G),
+    i ∈ g.inProgress → i ∉ g.ready → i ∈ (launch cfg k g).inProgress := by
+  intro k
+  induction k with
+  | zero => intro g h _; exact h
+  | succ k ih =>
+    intro g h hr
+    unfold launch
+    split
+    · exact h
+    · rename_i j rest hj
+      have hij : i ≠ j := by intro e; apply hr; rw [hj, e]; simp
+      have hir : i ∉ rest := by intro e; apply hr; rw [hj]; simp [e]
+      simp only
+      split
+      · apply ih
+        · simpa [setStatus] using h
+        · simpa [setStatus] using hir
+      · obtain ⟨f1, _, _, _, f5, _, _⟩ := executeRecord_frame cfg { g with ready := rest } j false
+        apply ih
+        · exact (f1 i hij).mpr h
+        · rw [f5]; exact hir
+
+/-- **Launching from a non-empty queue makes progress**: either some step that
+was unresolved is resolved afterwards, or something is tracked afterwards. -/
+theorem launch_progress {cfg : Cfg} (wf : WFCfg cfg) {g : G} (h : InvA cfg g) {k : Nat} (hk : 0 < k)
+    (hr : g.ready ≠ []) :
+    (∃ j, j ≤ cfg.n ∧ ¬ Resolved g j ∧ Resolved (launch cfg k g) j) ∨ (launch cfg k g).inProgress ≠ [] := by
+  obtain ⟨k', rfl⟩ : ∃ k', k = k' + 1 := ⟨k - 1, by omega⟩
+  unfold launch
+  cases hq : g.ready with
+  | nil => exact absurd hq hr
+  | cons i rest =>
+    simp only
+    have hi : i ∈ g.ready := by rw [hq]; simp
+    have hle : i ≤ cfg.n := h.bnd i (Or.inr (Or.inr (Or.inr (Or.inr (Or.inl hi)))))
+    have hnr : ¬ Resolved g i := by
+      intro hres
+      rcases hres with h1 | h1 | h1
+      · exact (h.cD i h1).2.2 hi
+      · exact (h.rD i hi).1 h1
+      · exact (h.rD i hi).2 h1
+    have hnodup : i ∉ rest := by
+      have := h.rN; rw [hq] at this; exact (List.nodup_cons.mp this).1
+    split
+    · left
+      refine ⟨i, hle, hnr, ?_⟩
+      have gr := (launch_completed cfg k'
+        (setStatus { g with ready := rest, cancelled := ins i g.cancelled } i .CANCELLED)).1
+      exact gr.resolved (Or.inr (Or.inr (by simp [setStatus])))
+    · rcases executeRecord_outcome wf { g with ready := rest } i false with hin | hres
+      · right
+        obtain ⟨_, _, _, _, f5, _, _⟩ := executeRecord_frame cfg { g with ready := rest } i false
+        have := launch_keeps_inProgress cfg k' _ hin (by rw [f5]; exact hnodup)
+        intro he; rw [he] at this; simp at this
+      · left
+        refine ⟨i, hle, hnr, ?_⟩
+        exact (launch_completed cfg k' _).1.resolved hres
+
+end MaestroVerif.Exec
+
+namespace MaestroVerif.Exec
+open MaestroVerif.Gen
+
+/-! ### one decisive poll makes progress -/
+
+theorem launch_nil (cfg : Cfg) (k : Nat) (g : G) (h : g.ready = []) : launch cfg k g = g := by
+  cases k with
+  | zero => rfl
+  | succ k => unfold launch; simp [h]
+
+theorem verdict_final_of {cfg : Cfg} {g : G}
+    (h : (g.isCanceled = true ∧ g.inProgress = []) ∨ ∀ k, k ≤ cfg.n → Resolved g k) :
+    verdict cfg g ≠ .RUNNING := by
+  unfold verdict
+  rcases h with ⟨h1, h2⟩ | h
+  · simp [h1, h2]
+  · split
+    · simp
+    · have hall : (List.range (cfg.n + 1)).all
+          (fun k => g.completed.contains k || g.failed.contains k || g.cancelled.contains k) = true := by
+        simp only [List.all_eq_true, List.mem_range]
+        intro k hk
+        have := (resolvedB_iff g k).mpr (h k (by omega))
+        simpa [resolvedB] using this
+      simp only [hall, ↓reduceIte]
+      repeat' split
+      all_goals simp
+
+/-- the tail of a poll (staging and launching) from a state in which nothing is
+tracked and the sweeps are done: the study is over, or a step gets resolved, or
+something is tracked afterwards -/
+theorem tail_progress {cfg : Cfg} (wf : WFCfg cfg) (ha : Dag.Acyclic cfg.dag) {g : G}
+    (hA : InvA cfg g) (hU : InvU cfg g) (hq : g.cleanup = [] ∧ g.cancelQ = [])
+    (hip : g.inProgress = [])
+    (hcl : (launch cfg (available cfg (stage cfg g)) (stage cfg g)).isCanceled = false →
+      Closed cfg (launch cfg (available cfg (stage cfg g)) (stage cfg g))) :
+    verdict cfg (launch cfg (available cfg (stage cfg g)) (stage cfg g)) ≠ .RUNNING ∨
+    (∃ j, j ≤ cfg.n ∧ ¬ Resolved g j ∧
+      Resolved (launch cfg (available cfg (stage cfg g)) (stage cfg g)) j) ∨
+    (launch cfg (available cfg (stage cfg g)) (stage cfg g)).inProgress ≠ [] := by
+  obtain ⟨s1, s2, s3, s4, s5⟩ := inv_stage hA hq
+  obtain ⟨c1, c2, c3, _, _, c6⟩ := stage_sets cfg g
+  by_cases hr : (stage cfg g).ready = []
+  · -- nothing to launch: the study is over
+    left
+    rw [launch_nil cfg _ _ hr] at hcl ⊢
+    apply verdict_final_of
+    by_cases hc : (stage cfg g).isCanceled = true
+    · exact Or.inl ⟨hc, by rw [s4]; exact hip⟩
+    · right
+      have hclosed := hcl (by simpa using hc)
+      refine Classical.byContradiction fun hnot => ?_
+      have hex : ∃ k, k ≤ cfg.n ∧ ¬ Resolved (stage cfg g) k := by
+        refine Classical.byContradiction fun hne => hnot fun k hk => ?_
+        exact Classical.byContradiction fun hk' => hne ⟨k, hk, hk'⟩
+      obtain ⟨k, hk⟩ := hex
+      obtain ⟨m, ⟨hm, hmr⟩, hpar⟩ := exists_minimal wf ha
+        (fun k => k ≤ cfg.n ∧ ¬ Resolved (stage cfg g) k) hk
+      -- every parent of m is complete
+      have hpc : ∀ p, p ∈ cfg.parents m → p ∈ g.completed := by
+        intro p hp
+        have hedge : m ∈ cfg.dag.adj p := (wf.par p m).mpr hp
+        have hpn : p ≤ cfg.n := (wf.nodes p).mp (wf.dagwf.src p m hedge)
+        have hres : Resolved (stage cfg g) p := Classical.byContradiction fun h => hpar p hp ⟨hpn, h⟩
+        rcases hres with h1 | h1 | h1
+        · rw [c1] at h1; exact h1
+        · exact absurd ((hclosed p m (Or.inl h1) hedge).elim (fun h => Or.inr (Or.inl h))
+            (fun h => Or.inr (Or.inr h))) hmr
+        · exact absurd ((hclosed p m (Or.inr h1) hedge).elim (fun h => Or.inr (Or.inl h))
+            (fun h => Or.inr (Or.inr h))) hmr
+      have hmc : m ∉ g.completed := fun h => hmr (Or.inl (by rw [c1]; exact h))
+      have hst : g.status m = .INITIALIZED := by
+        refine Classical.byContradiction fun hne => ?_
+        rcases hU.fresh m hne with h1 | h1 | h1 | h1 | h1 | h1 | h1
+        · exact hmc h1
+        · rw [hip] at h1; simp at h1
+        · exact hmr (Or.inr (Or.inl (by rw [c2]; exact h1)))
+        · exact hmr (Or.inr (Or.inr (by rw [c3]; exact h1)))
+        · have := stage_ready_mono cfg g m h1; rw [hr] at this; simp at this
+        · rw [hq.1] at h1; simp at h1
+        · rw [hq.2] at h1; simp at h1
+      have := stage_queues_eligible hU hm hmc hst hpc
+      rw [hr] at this; simp at this
+  · -- something is queued and a slot is free
+    have hav : 0 < available cfg (stage cfg g) := by
+      unfold available
+      have hlen : 0 < (stage cfg g).ready.length := List.length_pos_iff.mpr hr
+      split
+      · exact hlen
+      · rename_i ht
+        have ht' : cfg.throttle ≠ 0 := by simpa using ht
+        rw [s4, hip]
+        simp only [List.length_nil, Nat.sub_zero]
+        omega
+    rcases launch_progress wf s1 hav hr with ⟨j, hj, hn, hres⟩ | hin
+    · right; left
+      refine ⟨j, hj, fun h => hn ?_, hres⟩
+      rcases h with h1 | h1 | h1
+      · exact Or.inl (by rw [c1]; exact h1)
+      · exact Or.inr (Or.inl (by rw [c2]; exact h1))
+      · exact Or.inr (Or.inr (by rw [c3]; exact h1))
+    · exact Or.inr (Or.inr hin)
+
+end MaestroVerif.Exec
+
+namespace MaestroVerif.Exec
+open MaestroVerif.Gen
+
+/-- a poll in which the scheduler answers every tracked job, each with an answer
+that ends the job for good -/
+structure Decisive (g : G) (p : PollIn) : Prop where
+  ok    : p.code = .OK
+  wf    : WFPoll g p
+  all   : ∀ i, i ∈ g.inProgress → ∃ r, r ∈ p.reports ∧ r.1 = i
+  final : ∀ r, r ∈ p.reports → decisiveState r.2
+
+theorem sweeps_idle (g : G) (h1 : g.cleanup = []) (h2 : g.cancelQ = []) :
+    (sweeps g).completed = g.completed ∧ (sweeps g).failed = g.failed ∧
+    (sweeps g).cancelled = g.cancelled ∧ (sweeps g).inProgress = g.inProgress := by
+  simp [sweeps, h1, h2]
+
+theorem decisive_progress {cfg : Cfg} (wf : WFCfg' cfg) (ha : Dag.Acyclic cfg.dag) {g : G}
+    (hr : Reachable cfg g) {p : PollIn} (hd : Decisive g p) :
+    verdict cfg (poll cfg g p).1 ≠ .RUNNING ∨
+    unresolved cfg (poll cfg g p).1 < unresolved cfg g ∨
+    (unresolved cfg (poll cfg g p).1 ≤ unresolved cfg g ∧ g.inProgress = [] ∧
+      (poll cfg g p).1.inProgress ≠ []) := by
+  have hI := Inv_reachable wf hr
+  have hU := InvU_reachable wf hr
+  have hgrow := (poll_completed cfg g p).1
+  have hcl := closed_reachable wf (Reachable.poll p hr hd.wf)
+  -- from a resolution to the measure
+  have fin : ∀ j, j ≤ cfg.n → ¬ Resolved g j → Resolved (poll cfg g p).1 j →
+      unresolved cfg (poll cfg g p).1 < unresolved cfg g :=
+    fun j hj h0 h1 => unresolved_lt hgrow hj h0 h1
+  by_cases hip : g.inProgress = []
+  · -- nothing tracked: the tail decides
+    have hnorep : p.reports = [] := by
+      cases hrep : p.reports with
+      | nil => rfl
+      | cons r rest =>
+        have := hd.wf.mem r (by rw [hrep]; simp)
+        rw [hip] at this; simp at this
+    have tail : ∀ g0 : G, InvA cfg g0 → InvU cfg g0 → g0.cleanup = [] ∧ g0.cancelQ = [] →
+        g0.inProgress = [] → (∀ j, Resolved g j → Resolved g0 j) →
+        (poll cfg g p).1 = launch cfg (available cfg (stage cfg g0)) (stage cfg g0) →
+        verdict cfg (poll cfg g p).1 ≠ .RUNNING ∨
+        unresolved cfg (poll cfg g p).1 < unresolved cfg g ∨
+        (unresolved cfg (poll cfg g p).1 ≤ unresolved cfg g ∧ g.inProgress = [] ∧
+          (poll cfg g p).1.inProgress ≠ []) := by
+      intro g0 a0 u0 q0 i0 hsub heq
+      rw [heq] at hcl
+      rcases tail_progress wf.toWFCfg ha a0 u0 q0 i0 hcl with h | ⟨j, hj, hn, hrj⟩ | h
+      · left; rw [heq]; exact h
+      · right; left
+        exact fin j hj (fun h => hn (hsub j h)) (by rw [heq]; exact hrj)
+      · right; right
+        exact ⟨unresolved_le hgrow, hip, by rw [heq]; exact h⟩
+    by_cases hdry : cfg.dry = true
+    · apply tail g hI.toInvA hU ⟨hI.noClean, hI.noCancQ⟩ hip (fun _ h => h)
+      unfold poll
+      simp [hdry]
+    · have hdry' : cfg.dry = false := by simpa using hdry
+      have he := inv_emit hI.toInvA (Ev.check g.inProgress)
+      have hs := inv_sweeps he
+      have ue := (hU.adv (adv_emit g (Ev.check g.inProgress))).adv
+        (adv_sweeps (emit g (Ev.check g.inProgress)))
+      obtain ⟨w1, w2, w3, w4⟩ := sweeps_idle (emit g (Ev.check g.inProgress))
+        (by simpa [emit] using hI.noClean) (by simpa [emit] using hI.noCancQ)
+      apply tail (sweeps (emit g (Ev.check g.inProgress))) hs ue (by simp [sweeps])
+        (by rw [w4]; simpa [emit] using hip)
+      · intro j hj
+        unfold Resolved at hj ⊢
+        rw [w1, w2, w3]
+        simpa [emit] using hj
+      · unfold poll
+        simp [hdry', hd.ok, hnorep]
+  · -- something is tracked: its job is answered for good
+    obtain ⟨i, hi⟩ := List.exists_mem_of_ne_nil _ hip
+    have hdry' : cfg.dry = false := by
+      cases hc : cfg.dry with
+      | false => rfl
+      | true => exact absurd (hI.dryIdle hc) hip
+    obtain ⟨r, hrm, hri⟩ := hd.all i hi
+    right; left
+    have hle : i ≤ cfg.n := hI.toInvA.bnd i (Or.inr (Or.inl hi))
+    have hnr : ¬ Resolved g i := by
+      obtain ⟨d1, d2, d3, _⟩ := hI.toInvA.ipD i hi
+      intro h
+      rcases h with h | h | h
+      · exact d1 h
+      · exact d2 h
+      · exact d3 h
+    apply fin i hle hnr
+    unfold poll
+    simp only [hdry', Bool.false_eq_true, ↓reduceIte, hd.ok]
+    have hset := (reports_settle wf.toWFCfg p.reports (emit g (Ev.check g.inProgress)) hd.final).2 r hrm
+    rw [hri] at hset
+    have hres := sweeps_resolves _ hset
+    obtain ⟨c1, c2, c3, _⟩ := stage_sets cfg (sweeps (p.reports.foldl (fun g r => report cfg g r.1 r.2)
+      (emit g (Ev.check g.inProgress))))
+    have hst : Resolved (stage cfg (sweeps (p.reports.foldl (fun g r => report cfg g r.1 r.2)
+        (emit g (Ev.check g.inProgress))))) i := by
+      unfold Resolved at hres ⊢
+      rw [c1, c2, c3]; exact hres
+    exact (launch_completed cfg _ _).1.resolved hst
+
+/-! ### termination under decisive polls -/
+
+/-- the lexicographic measure: unresolved steps, then "nothing tracked" -/
+def idle (g : G) : Nat := if g.inProgress = [] then 1 else 0
+
+/-- a run of decisive polls -/
+def runPolls (cfg : Cfg) (g : G) : List PollIn → G
+  | [] => g
+  | p :: ps => runPolls cfg (poll cfg g p).1 ps
+
+inductive DecisiveRun (cfg : Cfg) : G → List PollIn → Prop
+  | nil (g : G) : DecisiveRun cfg g []
+  | cons {g : G} {p : PollIn} {ps : List PollIn} : Decisive g p →
+      DecisiveRun cfg (poll cfg g p).1 ps → DecisiveRun cfg g (p :: ps)
+
+/-- **Termination**: from any reachable state, a run of decisive polls reaches a
+final verdict within `2 * unresolved + idle` polls. -/
+theorem decisive_terminates {cfg : Cfg} (wf : WFCfg' cfg) (ha : Dag.Acyclic cfg.dag) :
+    ∀ (m : Nat) (g : G), Reachable cfg g → 2 * unresolved cfg g + idle g ≤ m →
+      ∀ ps, DecisiveRun cfg g ps → m < ps.length →
+        ∃ k, k < ps.length ∧ verdict cfg (runPolls cfg g (ps.take (k + 1))) ≠ .RUNNING := by
+  intro m
+  induction m using Nat.strongRecOn with
+  | _ m ih =>
+    intro g hr hm ps hrun hlen
+    cases hrun with
+    | nil => simp at hlen
+    | cons hd htail =>
+      rename_i p ps'
+      rcases decisive_progress wf ha hr hd with hfin | hlt | ⟨hle, hip, hnip⟩
+      · exact ⟨0, by simp, by simpa [runPolls] using hfin⟩
+      · -- the measure dropped
+        have hr' := Reachable.poll p hr hd.wf
+        have hm' : 2 * unresolved cfg (poll cfg g p).1 + idle (poll cfg g p).1 < m := by
+          have : idle (poll cfg g p).1 ≤ 1 := by unfold idle; split <;> omega
+          have : idle g ≤ 1 := by unfold idle; split <;> omega
+          omega
+        have hlen' : 2 * unresolved cfg (poll cfg g p).1 + idle (poll cfg g p).1 < ps'.length := by
+          simp only [List.length_cons] at hlen; omega
+        obtain ⟨k, hk, hv⟩ := ih _ hm' (poll cfg g p).1 hr' (Nat.le_refl _) ps' htail hlen'
+        exact ⟨k + 1, by simp only [List.length_cons]; omega, by simpa [runPolls] using hv⟩
+      · have hr' := Reachable.poll p hr hd.wf
+        have h1 : idle g = 1 := by simp [idle, hip]
+        have h0 : idle (poll cfg g p).1 = 0 := by simp [idle, hnip]
+        have hm' : 2 * unresolved cfg (poll cfg g p).1 + idle (poll cfg g p).1 < m := by omega
+        have hlen' : 2 * unresolved cfg (poll cfg g p).1 + idle (poll cfg g p).1 < ps'.length := by
+          simp only [List.length_cons] at hlen; omega
+        obtain ⟨k, hk, hv⟩ := ih _ hm' (poll cfg g p).1 hr' (Nat.le_refl _) ps' htail hlen'
+        exact ⟨k + 1, by simp only [List.length_cons]; omega, by simpa [runPolls] using hv⟩
+
+end MaestroVerif.Exec
